@@ -7,7 +7,9 @@
 #![allow(dead_code, unused_imports)]
 
 mod m_parse;
+#[macro_use]
 mod m_rt;
+mod m_dflt;
 
 fn main() {
     if std::env::var_os("H_FMT_VERBOSE").is_none() {
